@@ -38,5 +38,9 @@ m = {
     "notes": "Every check regenerates its verification conditions from /repo's current working tree. Known findings (genuine defects recorded, not repaired) are in /verif/known_findings.jsonl. DESIGN.md explains the approach, assumptions and what each check catches.",
     "not_applicable": na,
 }
-json.dump(m, open("/verif/MANIFEST.json", "w"), indent=1)
+# written to a temporary file and renamed: MANIFEST.json is valid at every instant, also for a reader that opens it meanwhile
+import os
+with open("/verif/MANIFEST.json.tmp", "w") as f:
+    json.dump(m, f, indent=1)
+os.replace("/verif/MANIFEST.json.tmp", "/verif/MANIFEST.json")
 print("checks:", [c["property_id"] for c in checks], "n/a:", [x["property_id"] for x in na])
